@@ -8,7 +8,7 @@ hook files and the uncompiled `transport/s2n-quic/` removed) for these tokens:
 
   DECODE kinds (reported in every file)
     1  decode      `::decode..(` / `.decode..(`            prost / codec / bs58 / yasna decode calls
-    2  from_bytes  `from_bytes..(`, `try_from_bytes(`      PeerId / Multihash / Prefix / key constructors
+    2  from_bytes  `from_bytes..(`, `try_from_bytes(`, `from_be/le_bytes(`   PeerId / Multihash / Prefix / key / integer constructors
     3  try_from    `Type::try_from(` / `.try_into(`        checked conversions (Multiaddr, Protocol, enums ..)
     4  parse       `parse..(`                              str::parse, Packet::parse, certificate parse ..
     5  read_       `read_..(`                              read_exact, read_message, read_bytes, read_payload_size ..
@@ -27,7 +27,7 @@ hook files and the uncompiled `transport/s2n-quic/` removed) for these tokens:
    11  vec_n          `vec![x; n]`
    12  grow           `.resize(` / `.reserve(` / `zeroed(` / `.set_len(`
    13  cursor         `.split_to(` / `.split_off(` / `.split_at(` / `.advance(` / `.truncate(` / `.get_uN(`
-   14  slice          `[a..b]` with a non-trivial bound (not `[..]`)
+   14  slice          `[a..b]` with a non-trivial bound (not `[..]`), `.get(a..b)`
   CODEC sites (separate table): constructor uses `ProtocolCodec::Identity(..)` /
   `ProtocolCodec::UnsignedVarint(..)` (not match arms) with the argument text, i.e. which frame
   limit each protocol configures.
@@ -56,7 +56,7 @@ SITES_V = os.path.join(HERE, "..", "coq", "C19", "Sites.v")
 
 DECODE_KINDS = [
     (1, "decode", r"(?:::|\.)\s*decode\w*\s*\("),
-    (2, "from_bytes", r"\b(?:try_)?from_bytes\w*\s*\("),
+    (2, "from_bytes", r"\b(?:try_)?from_bytes\w*\s*\(|\bfrom_[bl]e_bytes\s*\("),
     (3, "try_from", r"\b[A-Za-z_]\w*(?:<[^<>()]*>)?::try_from\s*\(|\.\s*try_into\s*\("),
     (4, "parse", r"\bparse\w*\s*(?:::<[^<>()]*>)?\s*\("),
     (5, "read_", r"\bread_\w+\s*\("),
@@ -78,7 +78,7 @@ BUFFER_KINDS = [
     (11, "vec_n", r"\bvec!\s*\[[^;\[\]]*;[^\[\]]*\]"),
     (12, "grow", r"\.\s*(?:resize|reserve|set_len)\s*\(|\bzeroed\s*\("),
     (13, "cursor", r"\.\s*(?:split_to|split_off|split_at|advance|truncate|get_[ui]\d+(?:_le)?)\s*\("),
-    (14, "slice", r"\[[^\[\]\n;]*\.\.[^\[\]\n;]*\]"),
+    (14, "slice", r"\[[^\[\]\n;]*\.\.[^\[\]\n;]*\]|\.\s*get(?:_mut)?\s*\([^()\n]*\.\.[^()\n]*\)"),
 ]
 KIND_NAMES = {k: n for k, n, _ in DECODE_KINDS + BUFFER_KINDS}
 # a file without decode tokens still handles wire bytes when it implements one of these
